@@ -1,6 +1,6 @@
 (* C10 — non-vacuity: concrete, non-trivial states meeting the hypotheses of Properties/C10.v. *)
 From GL Require Import Stack.Registry Stack.RegSpec Stack.StackApi Stack.ArrayFacts
-  Stack.RegistryFacts Stack.StackApiFacts Stack.CallContractFacts.
+  Stack.RegistryFacts Stack.StackApiFacts Stack.CallContractFacts Stack.StaleFacts.
 From Coq Require Import Lia.
 
 Definition n (z : Z) : cell := Some (VInt z).
@@ -60,3 +60,39 @@ Proof. apply (call_contract_lemma r0 pre0 l0 _ _ _ _ 3 false 40 r0_rel); vm_comp
 Example call_fail : exists r', callByParamG r0 (Some (VRef 5)) [n 30; n 31] [n 60] [n 1; n 2] 3 true = Ok (r', true) /\
    Rr r' (pre0 ++ l0 ++ []) 40.
 Proof. apply (call_contract_lemma r0 pre0 l0 _ _ _ _ 3 true 40 r0_rel); vm_compute; discriminate. Qed.
+
+(* dead temporaries above a Lua callee's frame (seeded C10-10's history): a Lua function holding
+   [t; 10 .. 80] above its function slot calls, in register 1, a one-parameter Lua function with two
+   registers; that one calls a host function (register 1 of its frame) with one argument. *)
+Definition rL : registry :=
+  mkReg ([n 100; Some (VRef 1); Some (VRef 2); Some (VRef 3); n 7; n 20; n 30; n 40; n 50; n 60; n 70; n 80] ++ fresh 8) 12 20 0 0.
+Example rL_rel : Rr rL ([n 100; Some (VRef 1); Some (VRef 2)] ++ Some (VRef 3) :: [n 7] ++ [n 20; n 30; n 40; n 50; n 60; n 70; n 80]) 20.
+Proof. constructor; vm_compute; try reflexivity; try discriminate. left. discriminate. Qed.
+Example lua_frame_ex : exists r', initLuaFixed rL 4 1 1 2 = Ok r' /\
+   Rr r' ([n 100; Some (VRef 1); Some (VRef 2)] ++ Some (VRef 3) :: resizeL (resizeL [n 7] 1) 2) 20.
+Proof. apply (initLuaFixed_ok rL _ _ [n 7] [n 20; n 30; n 40; n 50; n 60; n 70; n 80] 20 1 2 rL_rel); vm_compute; try discriminate. split; discriminate. Qed.
+(* the callee's frame is [7; nil]; the caller's 30 .. 80 are still in the array above it *)
+Definition rL1 : registry := match initLuaFixed rL 4 1 1 2 with Ok r => r | _ => rL end.
+Example lua_frame_dead : top rL1 = 6 /\ live rL1 = [n 100; Some (VRef 1); Some (VRef 2); Some (VRef 3); n 7; cNil]
+   /\ rd (arr rL1) 6 = n 30 /\ rd (arr rL1) 11 = n 80.
+Proof. vm_compute. auto. Qed.
+(* the callee puts the host function into its register 1 and "x" above it, and calls it with one argument *)
+Definition rL2 : registry :=
+  match (r <- Set_ rL1 5 (Some (VRef 8)) ;; r <- Set_ r 6 (n 9) ;; initG r 6 1) with Ok r => r | _ => rL end.
+Example host_frame : top rL2 = 7 /\ rd (arr rL2) 7 = n 40 /\ rd (arr rL2) 11 = n 80.
+Proof. vm_compute. auto. Qed.
+(* ... which reads its argument at 1 and nil at 2 .. 6 although the cells hold 40 .. 80, and grows its list with nils *)
+Example host_reads_nil :
+  fst (arun rL2 6 [AGet 1; AGet 2; AGet 3; AGet 6; AGet 1000; ASetTop 4; AGet 3; AGet 5; ASetTop 1; APush (VInt 5); AGet 3])
+  = fst (L_run [n 9] [AGet 1; AGet 2; AGet 3; AGet 6; AGet 1000; ASetTop 4; AGet 3; AGet 5; ASetTop 1; APush (VInt 5); AGet 3]).
+Proof. vm_compute. reflexivity. Qed.
+(* the same script on a registry with the same live cells and nothing above the top *)
+Definition rL2clean : registry := mkReg (live rL2 ++ fresh 13) 7 20 0 0.
+Example host_rel : Rr rL2 (firstn 6 (live rL2) ++ [n 9]) 20 /\ Rr rL2clean (firstn 6 (live rL2) ++ [n 9]) 20.
+Proof. split; constructor; vm_compute; try reflexivity; try discriminate; left; discriminate. Qed.
+Example host_same_as_clean :
+  fst (arun rL2 (len (firstn 6 (live rL2))) [AGet 2; AGet 3; ASetTop 4; AGet 3; AInsert (VInt 1) 6; AGet 5]) =
+  fst (arun rL2clean (len (firstn 6 (live rL2))) [AGet 2; AGet 3; ASetTop 4; AGet 3; AInsert (VInt 1) 6; AGet 5]).
+Proof.
+  apply (dead_cells_unobservable_lemma _ rL2 rL2clean (firstn 6 (live rL2)) [n 9] 20); try apply host_rel; vm_compute; reflexivity.
+Qed.
